@@ -244,6 +244,92 @@ example :
       (∀ h ∈ [Handler.decline, Handler.decline], h = Handler.decline) ∧ specSend [.respond [2]] = .ok [2] := by
   refine ⟨by decide, by simp, by decide⟩
 
+/-! ### Retort trees: nesting commutes with derivation -/
+
+theorem flat_append (r : Req) (d opt : Nat) (a b : List Prov) :
+    flat r (d + 1) opt (a ++ b) = flat r (d + 1) opt a ++ flat r (d + 1) opt b := by
+  simp [flat]
+
+/-- a retort serves every request by the first-match / chaining meaning of its flattened full recipe -/
+theorem serve_tree_eq_spec (r : Req) (d opt : Nat) (ps : List Prov) :
+    serveTree r d opt ps = specSend (matching r (flat r d opt ps)) :=
+  send_eq_spec _ r
+
+/-- **A retort placed in a recipe - plain or `bound(pred, retort)`, at any depth of nesting - serves matched requests
+    from its OWN recipe and its OWN option** (`inner`, `o`), whatever the option `opt` and the rest of the recipe of
+    the enclosing retort: the answer of its own recipe is the answer, a terminal decline stops the outer search, and
+    only when its own recipe has nothing does the outer recipe continue behind it. -/
+theorem nested_tree_serves_own_recipe (pre post inner : List Prov) (c : Checker) (o opt d : Nat) (r : Req)
+    (hc : c.check r = true) (hpre : ∀ h ∈ matching r (flat r (d + 1) opt pre), h = Handler.decline) :
+    serveTree r (d + 1) opt (pre ++ Prov.nested c o inner :: post) =
+      match serveTree r d o inner with
+      | .ok w => .ok w
+      | .terminal => .terminal
+      | .notFound => serveTree r (d + 1) opt post := by
+  rw [serve_tree_eq_spec, flat_append, matching_append]
+  have hcons : flat r (d + 1) opt (Prov.nested c o inner :: post) =
+      (c, nestedHandler (serveTree r d o inner)) :: flat r (d + 1) opt post := by
+    simp [flat, serveTree]
+  rw [hcons, specSend_append_declines _ _ hpre]
+  have hm : matching r ((c, nestedHandler (serveTree r d o inner)) :: flat r (d + 1) opt post) =
+      nestedHandler (serveTree r d o inner) :: matching r (flat r (d + 1) opt post) := by
+    simp [matching, hc]
+  rw [hm, serve_tree_eq_spec r (d + 1) opt post]
+  cases serveTree r d o inner <;> simp [nestedHandler, specSend]
+
+/-- **Nesting commutes with `extend`**: a retort derived by `extend(recipe=new)` and THEN placed in a recipe serves
+    the request by `new` first and the recipe of the retort it was derived from behind it (first-match / chaining over
+    `new ++ old`, with the option unchanged) - the provider it becomes is a function of its own value only. -/
+theorem nested_extend_prepends (v : RetortV) (new pre post : List Prov) (c : Checker) (opt d : Nat) (r : Req)
+    (hc : c.check r = true) (hpre : ∀ h ∈ matching r (flat r (d + 2) opt pre), h = Handler.decline) :
+    serveTree r (d + 2) opt (pre ++ (v.extend new).asProvider c :: post) =
+      match specSend (matching r (flat r (d + 1) v.opt new) ++ matching r (flat r (d + 1) v.opt v.full)) with
+      | .ok w => .ok w
+      | .terminal => .terminal
+      | .notFound => serveTree r (d + 2) opt post := by
+  have h := nested_tree_serves_own_recipe pre post (v.extend new).full c v.opt opt (d + 1) r hc hpre
+  have hf : (v.extend new).full = new ++ v.full := by simp [RetortV.extend, RetortV.full]
+  rw [hf, serve_tree_eq_spec r (d + 1) v.opt (new ++ v.full), flat_append, matching_append] at h
+  have hp : (v.extend new).asProvider c = Prov.nested c v.opt (new ++ v.full) := by
+    show Prov.nested c (v.extend new).opt (v.extend new).full = _
+    rw [hf]; rfl
+  rw [hp]
+  exact h
+
+/-- **Nesting commutes with `replace`**: a retort derived by `replace(option)` and then placed in a recipe serves the
+    request from the unchanged recipe under the NEW option. -/
+theorem nested_replace_only_option (v : RetortV) (o : Nat) (pre post : List Prov) (c : Checker) (opt d : Nat) (r : Req)
+    (hc : c.check r = true) (hpre : ∀ h ∈ matching r (flat r (d + 1) opt pre), h = Handler.decline) :
+    serveTree r (d + 1) opt (pre ++ (v.replace o).asProvider c :: post) =
+      match serveTree r d o v.full with
+      | .ok w => .ok w
+      | .terminal => .terminal
+      | .notFound => serveTree r (d + 1) opt post :=
+  nested_tree_serves_own_recipe pre post v.full c o opt d r hc hpre
+
+/-- `extend` / `replace` leave the source retort (and so every recipe it is already placed in) as it was, and the
+    derived retort used directly serves by `new ++ old` / the new option -/
+theorem derived_direct (v : RetortV) (new : List Prov) (o d : Nat) (r : Req) :
+    serveTree r (d + 1) (v.extend new).opt (v.extend new).full =
+        specSend (matching r (flat r (d + 1) v.opt new) ++ matching r (flat r (d + 1) v.opt v.full)) ∧
+      serveTree r d (v.replace o).opt (v.replace o).full = serveTree r d o v.full := by
+  refine ⟨?_, rfl⟩
+  have hf : (v.extend new).full = new ++ v.full := by simp [RetortV.extend, RetortV.full]
+  rw [hf, serve_tree_eq_spec, flat_append, matching_append]
+  rfl
+
+/-- non-vacuity: a strict retort with `[A -> 0, int -> chainLast 1]`, extended by `[Base -> chainFirst 2]` /
+    replaced to lax, then placed (bound to the request) into a strict enclosing retort -/
+example :
+    let cls : List Prov := [.builtin (.exact 2)]
+    let v : RetortV := { opt := 0, inst := [.plain (.exact 0) (.respond [0]), .plain (.exact 2) (.chainLast 1)], cls := cls }
+    let rA : Req := { origin := 0, sat := fun i => i == 0 || i == 1 }
+    let rI : Req := { origin := 2, sat := fun i => i == 0 }
+    serveTree rA 3 0 ((v.extend [.plain (.other 1) (.chainFirst 2)]).asProvider (.other 0) :: cls) = .ok [2, 0] ∧
+      serveTree rI 3 0 ((v.replace 1).asProvider (.other 0) :: cls) = .ok [1001, 1] ∧
+      serveTree rI 3 0 (v.asProvider (.other 0) :: cls) = .ok [1000, 1] := by
+  decide
+
 /-! Non-vacuity: a concrete recipe with a one-element combo followed by a
     non-exact checker (the arrangement on which the unrepaired combiner
     duplicated the handler). -/
